@@ -129,20 +129,22 @@ CLAIMED = {
     "C04": dict(
         technique="Coq model of the codec (pval, get_state, construct_val) with refuted-corruption theorems + schema/value correspondence",
         text=("coq/props/C04.v over an executable Gallina model of every *_get_state function and every _construct (PyVal/CodecDump/CodecLoad, reusing the get_tree model): "
-              "C04_faithful_or_refuses_partial is a theorem on scalars, nested list/tuple/set, slices and names with tree-shaped ids under the decidable guard c04_ok; one refuted theorem (vm_compute witness) per "
+              "C04_faithful_or_refuses_partial is a theorem on the C05 fragment (scalars, nested list/tuple/set, dict family, slices, names, operator getters; arbitrary sharing) under the decidable guard c04_ok; one refuted theorem (vm_compute witness) per "
               "corruption class = open findings D08 (colliding keys), D09 (frozenset/deque payload), D10 (rank>=2 object arrays), D26 (property values), C04-F1..F4 (scalar / defaultdict / tuple subclasses, surrogate pairs); "
               "C04_dump_pure holds by type. Everything else in the guard (dict family, arrays, user classes, sharing) is correspondence-only: the model's normalised schema AND its predicted loaded value -- including the "
               "predicted corruption or exception class -- are compared with /repo on >= 340 generated values per run, and c04_ok => faithful-or-refuses is evaluated per case; dump purity by fingerprint before/after."),
         note=("Trusted: harness/pval_emit.py (object -> pval term), absval/canon, numpy/scipy/json float codecs as opaque tokens, zipfile. D07 (bool keys) and D25 (defaultdict keys) repaired in /repo."),
         ref="DESIGN.md section 4 C04"),
     "C05": dict(
-        technique="Coq round-trip theorem on a fragment of the supported grammar + per-case vm_compute of the model round trip + implementation cycles",
-        text=("coq/props/C05.v: C05_roundtrip_partial (structural induction: get_tree + construct_val on the state get_state emits returns exactly v) and C05_stable_partial (k cycles) for scalars, nested "
-              "list/tuple/set, slices, function and type names with pairwise distinct ids; the full statement is kept visible; missing from the theorem: dict family, member-bearing leaves, object arrays, shared objects "
-              "(need the global memo first-occurrence invariant and show_Z injectivity). Full grammar: per generated value `supported v` and 'model loads(dumps(v)) has the abstraction of v' are evaluated by vm_compute, and "
-              "the model's schema/value are compared with /repo; k-fold dump/load cycles and RNG stream continuation are run on the implementation."),
-        note=("Trusted: as C04; floats identified with their repr text; numpy/scipy codecs opaque."),
-        ref="DESIGN.md section 4 C05"),
+        technique="Coq round-trip theorem at the real entry points (dict family, arbitrary sharing) + per-case vm_compute of the model round trip + implementation cycles",
+        text=("coq/props/C05.v: C05_roundtrip_partial -- for every value in the fragment `c05_guard` (scalars; nested list/tuple/set; dict / OrderedDict / defaultdict with str/int/float/numpy-number keys "
+              "without JSON-spelling collisions, including the key_types lists; slices; function and type names; attrgetter/itemgetter) with ANY sharing of sub-objects (a DAG; premise: one label denotes one object), "
+              "roundtrip = loads_model (dumps_model v) = Ok v, i.e. the same value with the same identity labels and sharing; proved through the memo first-occurrence invariant for trees get_tree builds from states "
+              "get_state emits, at the root entry points incl. the protocol/_skops_version fields; C05_stable_partial for k cycles; totality of dumps on the fragment. Not yet in the theorem (correspondence-only): "
+              "member-bearing leaves (bytes, arrays, sparse, dtype, RNGs, masked arrays), partial, object arrays. Full grammar: per generated value `supported v` and 'model loads(dumps(v)) has the abstraction of v' are "
+              "evaluated by vm_compute, and the model's schema/value are compared with /repo; k-fold dump/load cycles and RNG stream continuation run on the implementation."),
+        note=("Trusted: harness/pval_emit.py (object -> pval term), absval/canon; floats identified with their repr text; numpy/scipy codecs opaque tokens. About half of the generated quick cases lie in the proved fragment."),
+        ref="DESIGN.md section 4 C05 / section 10"),
     "C06": dict(
         technique="Coq proof over a heap-walk model with an adversarial address allocator + state and behaviour correspondence under allocator pressure",
         text=("coq/props/C06.v (13 theorems, no axioms): for EVERY allocator that never returns a live address, every heap and root on which the dump terminates: ids are injective on visited objects and the memo pins them "
@@ -162,6 +164,7 @@ CLAIMED = {
     "C12": dict(
         technique="Coq proof of schema well-formedness over the dump model + archive/sink/compression checks on the implementation",
         text=("coq/props/C12.v: C12_schema_wf (induction over pval, guard no_rank0: root carries protocol and version; every loader-child state has __loader__ in the model's loader set, __class__, __module__, __id__), "
+              "C12_flat_names for every value (each member name is flat and of the shape <id>.npy / <id>.npz / u<n>.bin / schema.json; uses injectivity of the decimal rendering of ids), "
               "C12_loader_registered (per run, vm_compute over the regenerated registry), C12_sink_indep (by construction), C12_members_exact_refuted (finding C12-F1: a member written for a value whose dict key later collides). "
               "Members-exact, flat member names and sink/compression independence are checked on every real archive: namelist vs schema file refs, regexes, and a 4 sinks x 8 compression configs product compared after id/uuid normalisation."),
         note=("Trusted: zipfile (container, codecs); harness normaliser. Open: C12-F1."),
